@@ -37,9 +37,12 @@ inline void print_byte(std::ostream& out, uint8_t x)
     else
     {
         out << "\\x";
+        const std::ios_base::fmtflags flags = out.flags();
+        const char fill = out.fill('0');
         out.width(2);
-        out.fill('0');
         out << std::hex << unsigned(x);
+        out.flags(flags);
+        out.fill(fill);
     }
 }
 
